@@ -313,8 +313,8 @@ func (fr *FuncRun) rangeAssume(st *State, term string, t types.Type) {
 		if t.Underlying().(*types.Basic).Info()&types.IsString != 0 {
 			key := "rng:" + term
 			if !fr.once(key) {
-			return
-		}
+				return
+			}
 			fr.emit(fmt.Sprintf("(assert (and (<= 0 (strlen %s)) (= (= (strlen %s) 0) (= %s 0))))", term, term, term))
 		}
 	case *types.Map:
@@ -334,9 +334,22 @@ func (fr *FuncRun) allocRef(hint string) string {
 	fr.emit(fmt.Sprintf("(assert (> %s 0))", r))
 	// distinct from earlier allocations and from entry-state references: modelled with
 	// an allocation counter: fresh refs are above AllocBase and strictly increasing.
-	fr.emit(fmt.Sprintf("(assert (> %s %s))", r, fr.allocTop))
+	// (the very next address: between two allocation marks there is nothing but the objects of one call, see bumpAllocTop)
+	fr.emit(fmt.Sprintf("(assert (= %s (+ %s 1)))", r, fr.allocTop))
 	fr.emit(fmt.Sprintf("(assert (= (fa_root %s) %s))", r, r))
+	fr.emit(fmt.Sprintf("(assert (<= (born %s) %s))", r, r))
 	fr.allocTop = r
 	fr.freshRefs[r] = true
 	return r
+}
+
+// bumpAllocTop: a call (of a callee under contract, or of external code) may allocate. The objects it allocates lie
+// between the allocation mark at the call and a new, later mark, and whatever is stored in them existed by that mark.
+func (fr *FuncRun) bumpAllocTop() {
+	lo := fr.allocTop
+	nt := fr.fresh(sInt, "alloctop")
+	fr.emit(fmt.Sprintf("(assert (>= %s %s))", nt, lo))
+	x := fr.freshName("x")
+	fr.emit(fmt.Sprintf("(assert (forall ((%s Int)) (! (=> (and (< %s %s) (<= %s %s)) (<= (born %s) %s)) :pattern ((born %s)))))", x, lo, x, x, nt, x, nt, x))
+	fr.allocTop = nt
 }
